@@ -21,8 +21,10 @@ ASSUMPTIONS = ["element values and liveness are derived from the scripted source
                "g++-12 -O1 build of the working tree with harness-side shims"]
 FLOORS = {"cycles_checked": {"quick": 5000, "thorough": 80000}, "empty_states": {"quick": 200, "thorough": 3000},
           "singleton_states": {"quick": 300, "thorough": 5000}, "multi_states": {"quick": 1500, "thorough": 25000},
-          "capacity_growth_cases": {"quick": 5, "thorough": 80}, "more_than_64_live_cases": {"quick": 8, "thorough": 150}}
+          "capacity_growth_cases": {"quick": 5, "thorough": 80}, "more_than_64_live_cases": {"quick": 8, "thorough": 150}, "keyed_vanishing_inner_keys": {"quick": 100, "thorough": 1500},
+          "keyed_growth_with_vanishing_key": {"quick": 10, "thorough": 150}}
 BATCH = 20
+M_WRAP = 1000003
 
 FOLDS = {"sum": lambda a, b: a + b, "add": lambda a, b: a + b, "max": max, "xor": lambda a, b: a ^ b,
          "mark": lambda a, b: a + b + 1000, "fn2:0": lambda a, b: a + b, "fn2:1": max}
@@ -73,9 +75,99 @@ def gen_case11(rng, name, k):
     return c
 
 
+def gen_keyed_case(rng, name):
+    """A reduction whose VALUE is a dictionary: elements are dictionaries merged key-wise (sum). Inner keys vanish from the fold when
+    the only element carrying them goes away or drops them - also in cycles that grow the tree over a capacity boundary."""
+    start, end = 0, rng.choice([20, 35])
+    c = Case(name, start, end)
+    c.scripts[9] = [(t, t) for t in range(start, end)]
+    live, sc, nxt = {}, [], 0
+    for t in range(start, end):
+        if rng.random() < 0.35:
+            continue
+        ops = []
+        for _ in range(rng.choice([1, 1, 2, 3])):
+            r = rng.random()
+            if r < 0.45 or not live:
+                k = nxt if rng.random() < 0.7 else rng.choice(sorted(live) or [nxt])
+                nxt += 1 if k == nxt else 0
+                ik = rng.randrange(6)
+                ops.append(f"[{k}][{ik}]={rng.randint(1, 50)}")
+                live.setdefault(k, set()).add(ik)
+            elif r < 0.7:
+                k = rng.choice(sorted(live))
+                ops.append(f"x[{k}]")
+                live.pop(k)
+            elif r < 0.9:
+                k = rng.choice(sorted(live))
+                if live[k]:
+                    ik = rng.choice(sorted(live[k]))
+                    ops.append(f"[{k}]x[{ik}]")
+                    live[k].discard(ik)
+            else:
+                k = rng.choice(sorted(live))
+                ops.append(f"[{k}][{rng.randrange(6)}]={rng.randint(1, 50)}")
+        # a key erased and written again in one cycle is not generated
+        seen, good = set(), []
+        for op in ops:
+            k = op[2:op.index("]")] if op.startswith("x[") else op[1:op.index("]")]
+            if (op.startswith("x[") and k in seen) or (not op.startswith("x[") and ("x", k) in seen):
+                continue
+            seen.add(("x", k) if op.startswith("x[") else k)
+            good.append(op)
+        if good:
+            sc.append(f"{t}|" + ",".join(good))
+    c.cscripts[1] = sc
+    c.graphs["main"] = [S("clk", "src", uid=9, mode=1), S("d", "csrc", shape="dd", uid=1), S("r", "reduce", "d", fn="mergedd"),
+                        S("", "cprobe", "r", "clk", uid=20)]
+    c.meta.update(keyed=1, shape="dd", fn="mergedd", zero=None, big=False)
+    return c
+
+
+def check_keyed(case, tr):
+    res = Result(signature=case.text().split("\n", 1)[1])
+    run = tr.runs[0]
+    if tr.build_error or run.error:
+        res.violations.append(Violation(f"build/run failed: {tr.build_error or run.error}"))
+        return res
+    probe = {t: d for t, d, _ in parse_dumps(run).get(20, [])}
+    wl = dict(write_log(run).get(1, []))
+    node = Node(SHAPES["dd"])
+    C = {"keyed_cycles_checked": 0, "keyed_vanishing_inner_keys": 0, "keyed_growth_with_vanishing_key": 0}
+    prev_fold, prev_n = {}, 0
+    for t in range(case.start, case.end):
+        for op in wl.get(t, []):
+            node.apply(op, t)
+        fold = {}
+        n = 0
+        for ek, e in node.children.items():
+            inner = {ik: c.val for ik, c in e.children.items() if c.val is not None}
+            n += 1
+            for ik, v in inner.items():
+                fold[ik] = (fold.get(ik, 0) + v) % M_WRAP
+        vanished = set(prev_fold) - set(fold)
+        if vanished:
+            C["keyed_vanishing_inner_keys"] += 1
+            if n > prev_n:
+                C["keyed_growth_with_vanishing_key"] += 1
+        d = probe.get(t)
+        if d is None:
+            res.violations.append(Violation(f"probe not woken at t={t}"))
+            continue
+        C["keyed_cycles_checked"] += 1
+        got = {int(k): int(c["val"]) for k, c in d.get("items", {}).items() if c["v"]} if d["v"] else {}
+        if got != fold and len(res.violations) < 5:
+            res.violations.append(Violation(f"t={t}: dictionary-valued reduction over {n} live elements reads {dict(sorted(got.items()))}, the "
+                                            f"key-wise fold of the live elements is {dict(sorted(fold.items()))}"))
+        prev_fold, prev_n = fold, n
+    res.counters = C
+    res.nontrivial = C["keyed_vanishing_inner_keys"] >= 1
+    return res
+
+
 def generate(rng, tier, seed):
     n = 250 if tier == "quick" else 4000
-    return [gen_case11(rng, f"c11_{seed}_{k}", k) for k in range(n)]
+    return [gen_case11(rng, f"c11_{seed}_{k}", k) for k in range(n)] + [gen_keyed_case(rng, f"c11_{seed}_kd{k}") for k in range(n // 4)]
 
 
 def expected(values, fn, zero):
@@ -92,6 +184,8 @@ def check(case, tr):
     if tr.build_error:
         res.violations.append(Violation(f"valid program rejected at build: {tr.build_error}"))
         return res
+    if case.meta.get("keyed"):
+        return check_keyed(case, tr)
     run = tr.runs[0]
     if run.error:
         res.violations.append(Violation(f"run failed: {run.error[:300]}"))
